@@ -6,6 +6,8 @@ import (
 	"fmt"
 	"net"
 	"net/url"
+	"os"
+	"path/filepath"
 	"sort"
 	"strings"
 	"time"
@@ -151,7 +153,60 @@ func expectRule(method, scheme, host, path string) string {
 }
 
 type fixtures struct {
-	apps map[string]*hx.Apps
+	apps        map[string]*hx.Apps
+	notLoadable []string
+}
+
+// splitOrder: different lists for the decision and the proxy service ("<decision>|<proxy>"): each service has to use its own
+var splitOrder = []string{"10.0.0.1|unset", "unset|10.0.0.1", "10.0.0.0/8|fd00::/8", "fd00::/8|10.0.0.0/8", "10.0.0.1|empty"}
+
+func listsOf(name string) (decision, proxy *[]string) {
+	if d, p, ok := strings.Cut(name, "|"); ok {
+		return trustedMenu[d], trustedMenu[p]
+	}
+
+	return trustedMenu[name], trustedMenu[name]
+}
+
+func listFor(name, service string) *[]string {
+	d, p := listsOf(name)
+	if service == "proxy" {
+		return p
+	}
+
+	return d
+}
+
+func loadConf(decision, proxy *[]string) (*config.Configuration, error) {
+	dir, err := os.MkdirTemp("", "c09-conf-")
+	if err != nil {
+		return nil, err
+	}
+
+	defer os.RemoveAll(dir)
+
+	var sb strings.Builder
+
+	sb.WriteString("serve:\n")
+
+	for _, svc := range []struct {
+		name string
+		list *[]string
+	}{{"decision", decision}, {"proxy", proxy}} {
+		sb.WriteString("  " + svc.name + ":\n    timeout:\n      read: 120s\n      write: 120s\n      idle: 120s\n")
+
+		if svc.list != nil {
+			b, _ := json.Marshal(*svc.list)
+			sb.WriteString("    trusted_proxies: " + string(b) + "\n")
+		}
+	}
+
+	path := filepath.Join(dir, "heimdall.yaml")
+	if err := os.WriteFile(path, []byte(sb.String()), 0o600); err != nil {
+		return nil, err
+	}
+
+	return config.NewConfiguration("C09NOENV_", config.ConfigurationPath(path))
 }
 
 func newFixtures() (*fixtures, error) {
@@ -162,10 +217,27 @@ func newFixtures() (*fixtures, error) {
 		return nil, err
 	}
 
-	for _, name := range trustedOrder {
-		conf := &config.Configuration{}
-		conf.Serve.Decision.TrustedProxies = trustedMenu[name]
-		conf.Serve.Proxy.TrustedProxies = trustedMenu[name]
+	for _, name := range append(append([]string{}, trustedOrder...), splitOrder...) {
+		// the configuration comes from the real loader (YAML file -> defaults, schema validation, decoding), as in
+		// production; lists the schema refuses are set on the loaded configuration directly
+		dec, prx := listsOf(name)
+
+		conf, err := loadConf(dec, prx)
+		if err != nil {
+			if strings.Contains(name, "|") {
+				return nil, fmt.Errorf("configuration %s: %w", name, err)
+			}
+
+			f.notLoadable = append(f.notLoadable, name)
+
+			if conf, err = loadConf(nil, nil); err != nil {
+				return nil, fmt.Errorf("minimal configuration: %w", err)
+			}
+
+			conf.Serve.Decision.TrustedProxies = dec
+			conf.Serve.Proxy.TrustedProxies = prx
+		}
+
 		apps := hx.NewApps(conf, nil)
 
 		if err := apps.Load(mf, ruleSets(apps.Upstream.Host())); err != nil {
@@ -306,7 +378,7 @@ func subsetNames(cs *Case) string {
 func judge(c *engine.Ctx, f *fixtures, cs *Case) {
 	apps := f.apps[cs.Trusted]
 	with, resp := observe(apps, cs.Service, cs.request(true))
-	trusted := isTrusted(trustedMenu[cs.Trusted], cs.Peer)
+	trusted := isTrusted(listFor(cs.Trusted, cs.Service), cs.Peer)
 
 	c.Eval(1)
 
@@ -491,6 +563,21 @@ func cases(quick bool) []Case {
 		}
 	}
 
+	// different lists per service, configuration from the real loader
+	for _, t := range splitOrder {
+		for _, p := range peers {
+			for s := 0; s < 1<<len(fwdHeaders); s++ {
+				if quick && s%3 != 0 && s != 1<<len(fwdHeaders)-1 {
+					continue
+				}
+
+				for _, svc := range []string{"decision", "proxy"} {
+					out = append(out, Case{t, p, s, "canonical", false, svc, ""})
+				}
+			}
+		}
+	}
+
 	// X-Forwarded-Uri in authority / absolute form: only path and query may be taken from it
 	for _, form := range []string{"authority", "absolute"} {
 		for _, peer := range []string{"10.0.0.1:4711", "10.9.9.9:4711"} {
@@ -529,7 +616,8 @@ func Check() *engine.Check {
 			"(each with a value that would select a different rule) x [thorough: 4 header-name spellings x single/repeated fields] through the real " +
 			"decision and proxy handler chains (first middleware = real trustedproxy) with rules keyed on scheme/host/method/path and a finalizer " +
 			"echoing method, URL and client address list; untrusted peer: differential against the same request without the headers, and no spoofed " +
-			"value may reach the upstream; trusted peer: per-component override table. Non-trivial = at least one forwarded header present or trusted peer.",
+			"value may reach the upstream; trusted peer: per-component override table; the configurations are produced by the real loader from YAML " +
+			"files, 5 of them with different lists for the two services (each service judged against its own list). Non-trivial = at least one forwarded header present or trusted peer.",
 		Assumptions: []string{
 			"trusted means: the peer's address parses and equals a parsable listed address or lies in a parsable listed CIDR range",
 			"X-Forwarded-Path for a trusted peer and the choice among repeated fields are not settled by the statement (not judged)",
@@ -556,6 +644,10 @@ func run(c *engine.Ctx) {
 	}
 
 	defer f.close()
+
+	if c.Shard == 0 {
+		c.Count("trusted_proxies_lists_refused_by_the_real_loader_and_set_directly", int64(len(f.notLoadable)))
+	}
 
 	for i, cs := range cases(c.Quick()) {
 		if !c.Mine(i) {
